@@ -34,6 +34,13 @@ def _no_string_ref(m):
                 return replace(t, ptr='')
             return t
         m = M.map_types(m, fn, skip_templates=True)
+    if findings.is_open('F-34-matlab-static-template-args'):
+        def statics(it):
+            if isinstance(it, M.Class):
+                return replace(it, members=tuple(x for x in it.members if not (
+                    isinstance(x, M.Static) and x.template is not None)))
+            return it
+        m = M.map_items(m, statics)
     if findings.is_open('F-12-matlab-setter-deref'):
         def props(it):
             if isinstance(it, M.Class):
